@@ -21,6 +21,21 @@ def run(tier, seed):
     cases = core.Cases()
     r.last_cases = cases
     corpus_cases(cases, PROP)
+    # (fixed) the nearest conftest.py wins wherever it lives: directories whose names only start like an ignored one
+    # (`environments/`, `venv311/`) are ordinary directories of the project - indexed by the workspace SCAN like any other
+    from ..pybuild import PyFile
+    ws = wsgen.WS()
+    c0 = PyFile(); c0.fixture("foo"); c0.fixture("bar"); ws.add("conftest.py", c0)
+    for d in ("environments", "venv311", "tests/env_prod", "builds"):
+        c1 = PyFile(); c1.fixture("foo", params=("foo",)); ws.add(d + "/conftest.py", c1)
+        t1 = PyFile(); t1.test("test_deploy", params=("foo", "bar")); ws.add(d + "/test_deploy.py", t1)
+    t0 = PyFile(); t0.test("test_root", params=("foo",)); ws.add("test_root.py", t0)
+    ws.order = list(ws.files); ws.meta = {"fixed": "directories named like ignored ones, indexed by the scan"}
+    cases.case("wscan", ws.meta)
+    for j, (p, pf) in enumerate(ws.files.items()):
+        cases.text("t%d" % j, pf.text()); cases.raw("disk %s t%d" % (p, j))
+    cases.op("scan")
+    wsgen.emit_queries(cases, ws, probes=("goto",))
     for i in range(n):
         ws = wsgen.gen_workspace(r.rng)
         name = "w%d" % i
